@@ -176,6 +176,8 @@ func (e *ScriptedEngine) answer(site string) (bool, error) {
 		return false, fmt.Errorf("engine request: %w", context.DeadlineExceeded)
 	case 4:
 		return false, fmt.Errorf("engine request aborted: %w", context.Canceled)
+	case 5: // an error next to a verdict flag that was left at true (e.g. `return status != INVALID, err` after a failed request)
+		return true, ErrEngine
 	}
 	return true, nil
 }
